@@ -4,6 +4,7 @@ package main
 
 import (
 	"bufio"
+	"context"
 	"fmt"
 	"io"
 	"math/big"
@@ -519,7 +520,9 @@ func (s *Solver) oneShot(extra *Term) (SatResult, bool) {
 	default:
 		argv = []string{s.name, fmt.Sprintf("-T:%d", max(1, s.timeout/1000)), f.Name()}
 	}
-	out, _ := exec.Command(argv[0], argv[1:]...).CombinedOutput()
+	ctx, cancel := context.WithTimeout(context.Background(), time.Duration(s.timeout+5000)*time.Millisecond)
+	defer cancel()
+	out, _ := exec.CommandContext(ctx, argv[0], argv[1:]...).CombinedOutput()
 	txt := string(out)
 	if strings.Contains(txt, "(error") {
 		return Unknown, false
